@@ -417,4 +417,27 @@ def Relay.init (ds : List Bytes) : Relay := ⟨[], ds, [], []⟩
 /-- Nothing left to do. -/
 def Relay.quiescent (s : Relay) : Bool := s.queue.isEmpty && s.jobs.isEmpty
 
+/-! ### Where a parsed datagram goes, and the way back
+
+`handlePacket`: port 53 with a DNS handler installed goes over the control channel (`QueryDNS` with
+server `host:53`, the virtual DNS address replaced by the default server); everything else to the
+destination's tunnel.  Way back: `receiveLoop` / `handleDNSQuery` wrap the answer with
+`buildUDPHeader(dstHost, dstPort, answer)` — the original host text, also for the virtual DNS. -/
+
+inductive Route where
+  | tunnel (d : UDest)
+  | dns (server : Text) (query : Bytes)
+deriving DecidableEq, Repr
+
+def isDnsRoute (dns : Bool) (d : UDest) : Bool := d.port == 53 && dns
+
+def dnsServer (host : Text) : Text :=
+  (if host = asciiText socks5.VirtualDNSIP then asciiText socks5.DefaultDNSServer else host) ++ [58] ++ decText 53
+
+def route (dns : Bool) (d : UDest) : Route :=
+  if isDnsRoute dns d then .dns (dnsServer d.host) d.payload else .tunnel d
+
+/-- The datagram sent back to the application for the answer `resp` to the packet `d`. -/
+def replyDatagram (c : IPText) (d : UDest) (resp : Bytes) : Bytes := buildUDPHeader c d.host d.port resp
+
 end Tunnox.C20
